@@ -84,6 +84,31 @@ def add_path(sym, kinds, absolute):
     sym.check("type-and-value", sym.and_(entry[0] == "sha256", entry[1] == value))
 
 
+FILE_NAMES = ["images", "boot.iso", "LiveOS", "x"]
+
+
+def add_computed(sym, kinds, alg):
+    """Checksums.add without a value: the digest recorded under the normalised path is the digest of the file at that
+    (lexically normalised) path below root_dir - 'x/../' components are resolved textually, x need not exist"""
+    comps = [FILE_NAMES[i % len(FILE_NAMES)] if kind == "name" else kind for i, kind in enumerate(kinds)]
+    want = normalise(comps)
+    if not want or want[0] == ".." or comps[-1] in (".", "..", ""):
+        return          # not a file below the root
+    rel = "/".join(want)
+    path, size = sym.symbolic_file(rel, MIB + 2)
+    root = path[:-(len(rel) + 1)]
+    ti = TreeInfo()
+    ti.checksums.add("/".join(comps), alg, None, root)
+    sym.cover("computed")
+    with open(path, "rb") as f:
+        data = f.read()
+    digest = hashlib.new(alg, data).hexdigest()
+    sym.check("one-entry-under-the-normalised-path", list(ti.checksums.checksums.keys()) == [rel])
+    entry = ti.checksums.checksums.get(rel)
+    sym.check("type", entry is not None and entry[0] == alg)
+    sym.check("digest-of-the-file-at-that-path", entry is not None and entry[1] == digest)
+
+
 OPTIONS = ["images/boot.iso", "images/efiboot.img", "LiveOS/squashfs.img"]
 
 
@@ -175,6 +200,9 @@ def jobs(tier, seed):
             out.append({"harness": "add_path", "params": {"kinds": list(c), "absolute": False}})
     for c in (["name"], ["name", "..", "name"], ["."]):
         out.append({"harness": "add_path", "params": {"kinds": c, "absolute": True}})
+    for ci, c in enumerate(combos):
+        if c[-1] == "name" and (big or len(c) <= 3 or (ci + seed) % 3 == 0):
+            out.append({"harness": "add_computed", "params": {"kinds": list(c), "alg": ["sha256", "md5", "sha1"][ci % 3]}})
     for n in (1, 2, 3):
         for c in itertools.product(["typed", "bare"], repeat=n):
             if big or n < 3 or (sum(1 for x in c if x == "bare") + seed) % 2 == 1:
@@ -185,13 +213,15 @@ def jobs(tier, seed):
 
 
 META = {
-    "expected_covers": {"digest_of_file": ["computed"], "add_path": ["called"], "read_section": ["read", "accepted"], "image_add_checksum": ["called"]},
+    "expected_covers": {"digest_of_file": ["computed"], "add_computed": ["computed"], "add_path": ["called"], "read_section": ["read", "accepted"], "image_add_checksum": ["called"]},
     "assumptions": [
         "compute_checksum: the file has a symbolic size up to 3 MiB + 2 (thorough 5 MiB + 2) and unmodelled content; hashlib is uninterpreted - what is decided is that the library "
         "feeds it exactly the bytes [0, size) in order, for every size (both sides of every 1 MiB chunk boundary) and for the listed algorithm names; "
         "contract: update(a); update(b) == update(a+b), read(k) returns min(k, rest) bytes",
         "Checksums.add: paths of 1-4 components, each '.', '..', empty or a symbolic name over [A-Za-z0-9_-]; os.path.normpath modelled on such ropes (the C implementation cannot be interpreted); "
         "the expected key comes from an independent reference normalisation in the harness",
+        "Checksums.add computing the digest itself (root_dir given): concrete component names, the same shapes of redundant components, the file of symbolic size "
+        "<= 1 MiB + 2 lives at the lexically normalised path below the root and nowhere else (so 'x/../' where x does not exist must still resolve)",
         "[checksums] reader: 1-3 entries under concrete option names; 'type:value' with alphanumeric type / hex value, or a bare hex digest of symbolic length 0..66 (quick: 0..42 for 2-3 entries)",
     ],
 }
